@@ -3,13 +3,18 @@
 
    PROVED, requester safety (Model/Repair.v, any sequence of repair_block / responses / time-outs, any
    content, any responses): a response the checks reject - unsolicited, of the wrong variant, with a
-   failing Merkle proof, wrong header indices, a slice root other than the proven one, a bad
-   signature - leaves the requester's whole state unchanged (request still outstanding, nothing
+   failing Merkle proof, wrong header indices, a data / coding type contradicting the shred index, a slice
+   root other than the proven one, a bad signature - leaves the requester's whole state unchanged (request still outstanding, nothing
    stored, nothing sent); a NACK re-sends the request and leaves the set of outstanding requests unchanged;
    a shred is only ever requested after its slice root was proven (so the unreachable!() cannot fire and the
    requester panics only if the blockstore does); whatever is stored as a repaired block under a
    requested identifier hashes to that identifier, and only such a block is handed to the pool; a block
    that becomes stored is announced to the pool in that very step (C14_stored_block_is_announced).
+   The shred type is covered by neither the leader's signature nor the Merkle path: a validly signed shred
+   of the leader with the type flipped in transit is such a rejected response whatever else is right about it
+   (C14_tag_flipped_response_is_ignored; current tree, "fix: do not blame the leader for a shred whose type
+   contradicts its index": the blockstore would refuse it - C12_tag_flip_is_harmless - so the requester keeps
+   the request instead of spending it).
    The pinned tree removed a request on ANY response (refuted below), accepted a shred whose last-slice
    flag contradicted the proven slice count (one shred of a slice a Byzantine leader signed twice then
    poisoned the repaired data for good - refuted below) and kept a repaired block whose hash differed
@@ -41,10 +46,11 @@
    split into >= 3 rounds, such that
      - SOUND (decidable [sound_op]): a last-slice / slice-root proof boolean is true only for the true last
        index / the true root at that position (C15's theorem for the real tree), and a validly signed shred with
-       the requested indices, the slice's root and the slice's last flag is the leader's shred (one slice
-       content per signed root - Merkle binding); everything else - NACKs, failing proofs, wrong variants,
-       unsolicited or replayed responses, shreds of other validly signed slices of a Byzantine leader (other
-       root or other last flag), time-outs, repeated repair_block - is unconstrained;
+       the requested indices, the slice's root, the slice's last flag and a type consistent with its index is
+       the leader's shred (one slice content per signed root - Merkle binding); everything else - NACKs, failing
+       proofs, wrong variants, unsolicited or replayed responses, shreds of other validly signed slices of a
+       Byzantine leader (other root or other last flag), validly signed shreds with a flipped (unsigned) type,
+       time-outs, repeated repair_block - is unconstrained;
      - FAIR (decidable [fair_rounds]): every round contains, anywhere and interleaved with anything, the correct
        response to each request outstanding at its start (the three protocol phases: last-slice root, slice
        roots, shreds);
@@ -116,6 +122,16 @@ Theorem C14_resigned_slice_derails_unchecked_repair_refuted :
   have_block (rp_store bad) 1 = false /\ rp_outstanding bad = [] /\
   have_block (rp_store good) 1 = true /\ rp_panicked good = false.
 Proof. exact resigned_slice_derails_unchecked_repair. Qed.
+
+Theorem C14_tag_flipped_response_is_ignored : forall ct slot expected rp r slot_ok s sig_ok,
+  rp_panicked rp = false -> shred_tag_ok s = false ->
+  rejected rp (PShred r slot_ok s sig_ok) = true /\
+  handle_response true ct slot expected rp (PShred r slot_ok s sig_ok) = (rp, []).
+Proof.
+  intros ct slot expected rp r slot_ok s sig_ok Hp Ht.
+  exact (conj (tag_flipped_response_is_rejected rp r slot_ok s sig_ok Ht)
+              (tag_flipped_response_is_ignored ct slot expected rp r slot_ok s sig_ok Hp Ht)).
+Qed.
 
 (* ---------- a block that becomes stored is announced (any stream) ---------- *)
 Theorem C14_stored_block_is_announced : forall keep ct slot expected rp o key,
@@ -251,13 +267,16 @@ Definition ex_held : list bshred :=
   map (hshred ex_hb 1) (seqN 0 40) ++ map (hshred ex_hb 0) (seqN 10 40) ++ map (hshred ex_hb 0) (seqN 12 3).
 (* hostile noise: failing proofs, NACKs, an unsolicited response, wrong variants, a shred of a re-signed slice
    (same root, other last flag, valid signature), a shred under another validly signed root, a shred with the
-   wrong index, a time-out, a repeated repair_block *)
+   wrong index, the leader's validly signed shred with its (unsigned) type flipped, a time-out, a repeated
+   repair_block *)
 Definition ex_noise : list rop :=
   [OResp (PLast (RLast 1) 0 7 false); OResp (PLast (RLast 1) 5 9 false); OResp (PNack (RLast 1)); OResp (PNack (RRoot 1 0));
    OResp (PRoot (RRoot 1 0) 9 false); OResp (PRoot (RLast 1) 7 true); OResp (PLast (RLast 2) 0 7 true);
    OResp (PShred (RShred 1 0 0) true (mkBS 0 true 7 0 true 100) true);
    OResp (PShred (RShred 1 0 1) true (mkBS 0 false 9 1 true 100) true);
    OResp (PShred (RShred 1 1 2) true (hshred ex_hb 1 3) true);
+   OResp (PShred (RShred 1 0 5) true (flip_tag (hshred ex_hb 0 5)) true);
+   OResp (PShred (RShred 1 1 40) true (flip_tag (hshred ex_hb 1 40)) true);
    OTimeout (RLast 1); OStart 1].
 Definition ex_rp0 := repair_run true ex_ct 5 ex_expected [OStart 1].
 Definition ex_round (rp : repair) : list rop :=
@@ -328,6 +347,7 @@ Print Assumptions C14_only_matching_blocks_reach_the_pool.
 Print Assumptions C14_pinned_bad_response_cancels_request_refuted.
 Print Assumptions C14_resigned_slice_derails_unchecked_repair_refuted.
 Print Assumptions C14_nonvacuous.
+Print Assumptions C14_tag_flipped_response_is_ignored.
 Print Assumptions C14_stored_block_is_announced.
 Print Assumptions C14_responder_sound.
 Print Assumptions C14_responder_hash_is_key.
